@@ -23,6 +23,8 @@ def registry_choice(rng, datetime_p=0.0):
 
 
 def gen_inputs(rng, styled_p=0.5, out_p=0.0, max_models=2):
+    if rng.random() < 0.2:
+        return [("Root", gen.gen_shared_samples(rng))]
     n = rng.choice([1] * 3 + [2] * (max_models > 1))
     kp = gen.key_pool(rng, styled_p, out_p)
     out = []
